@@ -7,9 +7,9 @@ import pbn_common as B
 from common import Case
 
 TITLE = 'PBN export is read back by the PBN parser, one game per board'
-LEAN_TARGETS = ['BridgeVerif.Props.C18', 'BridgeVerif.Translated.PbnWriter', 'BridgeVerif.Lemmas.RegexPbn', 'BridgeVerif.Translated.PbnParserClosed', 'BridgeVerif.Translated.PbnParserWide', 'BridgeVerif.Translated.PbnExport', 'BridgeVerif.Props.Regex']
-AUDIT_PROPS = ['C18', 'Translated.PbnWriter', 'Lemmas.RegexPbn', 'Translated.PbnParser', 'Translated.PbnParserClosed', 'Translated.PbnParserWide', 'Translated.PbnExport', 'Regex']
-REQUIRED = ['Lemmas.RegexPbn.pbnRegexFacts', 'Translated.PbnParserClosed.pp_parse_all_closed', 'Translated.PbnParserWide.pp_parse_all_wide_closed', 'Translated.PbnExport.pe_export_round_trip_translated', 'Translated.PbnExport.pe_export_as_settings_translated', 'Translated.PbnParser.pp_parse_all_translated', 'Regex.pbn_patterns_are_the_translated_constants',
+LEAN_TARGETS = ['BridgeVerif.Props.C18', 'BridgeVerif.Translated.PbnWriter', 'BridgeVerif.Lemmas.RegexPbn', 'BridgeVerif.Translated.PbnParserClosed', 'BridgeVerif.Translated.PbnParserWide', 'BridgeVerif.Translated.PbnExport', 'BridgeVerif.Translated.PbnExportClosed', 'BridgeVerif.Props.Regex']
+AUDIT_PROPS = ['C18', 'Translated.PbnWriter', 'Lemmas.RegexPbn', 'Translated.PbnParser', 'Translated.PbnParserClosed', 'Translated.PbnParserWide', 'Translated.PbnExport', 'Translated.PbnExportClosed', 'Regex']
+REQUIRED = ['Lemmas.RegexPbn.pbnRegexFacts', 'Translated.PbnParserClosed.pp_parse_all_closed', 'Translated.PbnParserWide.pp_parse_all_wide_closed', 'Translated.PbnExport.pe_export_round_trip_translated', 'Translated.PbnExportClosed.pe_export_round_trip_wf', 'Translated.PbnExport.pe_export_as_settings_translated', 'Translated.PbnParser.pp_parse_all_translated', 'Regex.pbn_patterns_are_the_translated_constants',
             'Translated.PbnWriter.pw_document_translated', 'Translated.PbnWriter.pw_write_board_result_translated_cases', 'Translated.PbnWriter.pw_write_line_translated_cases', 'Translated.PbnWriter.pw_write_tag_pair_translated_cases',
             'lines_at_most_255', 'written_lines_at_most_255', 'fifteen_tags_in_order', 'passed_out_tags', 'export_round_trip',
             'export_as_settings', 'consecutive_results_are_separate_games', 'old_writer_merged_games']
